@@ -4,7 +4,7 @@ from __future__ import annotations
 import itertools
 
 import lang
-from chartgen import chart_text, outcome, wide_chars
+from chartgen import chart_text, keyword_like_words, outcome, wide_chars
 from common import cps, rng
 
 SYMBOLS = ['"', " ", "=", "[", "]", "a", "é", "lyric", "lyric ", "section", "section ", "♪", "{", "0"]
@@ -82,6 +82,12 @@ def run(ctx):
             recs.append(observe_line(f"t{k}", f'{r.choice(["0", "96", "1000"])} = E "{t}"'))
             k += 1
             ctx.evaluations += 1
+    # the kind words themselves in every capitalisation, and words that only case-fold to them: "Section x", "LYRIC x", U+017F
+    for w in keyword_like_words():
+        for t in (f"{w} x", f"{w}", f"{w} ", f"lyric {w}", f"section {w} y", f"x {w}"):
+            recs.append(observe_line(f"t{k}", f'{r.choice(["0", "96"])} = E "{t}"'))
+            k += 1
+            ctx.evaluations += 1
     # TRACE: seeded whole sections with all kinds interleaved, long values, inner quotes; lists are file-order filters
     for j in range(ctx.pick(300, 6000)):
         n = r.choice([1, 2, 3, 4, 8, 20]) if j % 60 else r.choice([300, 1200])      # (a few long sections)
@@ -99,6 +105,10 @@ def run(ctx):
             lines.append(f'{tick} = E "{t}"')
             tick += r.choice([0, 1, 50, 400])
         recs.append(observe_seq(f"s{j}", lines))
+        if j % 5 == 0:
+            from chartgen import ITERABLE_KINDS, entry_point
+            with entry_point(ITERABLE_KINDS[(j // 5) % len(ITERABLE_KINDS)]):      # the section-level entry points, other iterables
+                recs.append(observe_seq(f"s{j}-direct", lines))
         ctx.evaluations += 1
         ctx.distinct(lines)
     ctx.sample({"origin": "events section", "lines": recs[-1]["text"][:6], "got": {k: len(v) for k, v in recs[-1]["got"].items()}})
